@@ -104,18 +104,26 @@ Init ==
 
 (*----------------------------- attacker loop -----------------------------*)
 \* elapsed := time.Since(began); if du > 0 && elapsed > du { return }; wait, stop := p.Pace(elapsed, count)
-LoopTop ==
-    /\ apc = "top"
-    /\ IF Du > 0 /\ now > Du
-       THEN /\ apc' = "closeticks" /\ Silent /\ UNCHANGED wakeAt
-       ELSE \E stop \in BOOLEAN, w \in Waits :
-              /\ (paces + 1 >= MaxCalls => stop)      \* bound the run
-              /\ Emit(C!PaceGuard, C!PaceUpd,
-                      [t |-> now, elapsed |-> now, hits |-> count, wait |-> w, stop |-> stop])
-              /\ IF stop THEN apc' = "closeticks" /\ UNCHANGED wakeAt
-                         ELSE apc' = "sleep" /\ wakeAt' = now + w
-    /\ UNCHANGED <<now, count, workers, starting, idle, ticked, tsTaken, dead, hits, nextSeq, ticksClosed,
-                   resultsClosed, stopClosed, spc, sret, fpc, cpc, cwake, delivered>>
+LoopUnch == UNCHANGED <<now, count, workers, starting, idle, ticked, tsTaken, dead, hits, nextSeq, ticksClosed,
+                        resultsClosed, stopClosed, spc, sret, fpc, cpc, cwake, delivered>>
+
+\* the duration has elapsed: return without consulting the pacer
+LoopTopDeadline ==
+    /\ apc = "top" /\ Du > 0 /\ now > Du
+    /\ apc' = "closeticks" /\ Silent /\ UNCHANGED wakeAt
+    /\ LoopUnch
+
+\* the pacer is consulted and answers (w, stop)
+LoopTopPace(stop, w) ==
+    /\ apc = "top" /\ ~(Du > 0 /\ now > Du)
+    /\ (paces + 1 >= MaxCalls => stop)      \* bound the run
+    /\ Emit(C!PaceGuard, C!PaceUpd,
+            [t |-> now, elapsed |-> now, hits |-> count, wait |-> w, stop |-> stop])
+    /\ IF stop THEN apc' = "closeticks" /\ UNCHANGED wakeAt
+               ELSE apc' = "sleep" /\ wakeAt' = now + w
+    /\ LoopUnch
+
+LoopTop == LoopTopDeadline \/ \E stop \in BOOLEAN, w \in Waits : LoopTopPace(stop, w)
 
 \* time.Sleep(wait) returns
 Wake ==
@@ -221,13 +229,14 @@ AssignSeq ==
 SetHit(s, h) == hits' = [hits EXCEPT ![s] = h]
 
 \* err = tr(&tgt)
-CallTargeter(s) ==
+CallTargeterP(s, err) ==
     /\ hits[s].ph = "targ"
-    /\ \E err \in (IF FailAllowed THEN BOOLEAN ELSE {FALSE}) :
-         /\ Emit(C!TargeterGuard, C!TargeterUpd, [t |-> now, k |-> targ + 1, err |-> err])
-         /\ SetHit(s, [hits[s] EXCEPT !.ph = IF err THEN "failstop" ELSE "enter", !.err = err])
+    /\ Emit(C!TargeterGuard, C!TargeterUpd, [t |-> now, k |-> targ + 1, err |-> err])
+    /\ SetHit(s, [hits[s] EXCEPT !.ph = IF err THEN "failstop" ELSE "enter", !.err = err])
     /\ UNCHANGED <<now, apc, count, wakeAt, workers, starting, idle, ticked, tsTaken, dead, nextSeq, ticksClosed,
                    resultsClosed, stopClosed, spc, sret, fpc, cpc, cwake, delivered>>
+
+CallTargeter(s) == \E err \in (IF FailAllowed THEN BOOLEAN ELSE {FALSE}) : CallTargeterP(s, err)
 
 \* if err != nil { a.Stop(); return &res }
 FailStop(s) ==
@@ -239,13 +248,14 @@ FailStop(s) ==
                    resultsClosed, spc, sret, fpc, cpc, cwake, delivered>>
 
 \* a.client.Do(req) reaches the transport
-Enter(s) ==
+EnterP(s, lat) ==
     /\ hits[s].ph = "enter"
-    /\ \E lat \in Lats :
-         /\ SetHit(s, [hits[s] EXCEPT !.ph = "transport", !.ent = now, !.ext = now + lat])
+    /\ SetHit(s, [hits[s] EXCEPT !.ph = "transport", !.ent = now, !.ext = now + lat])
     /\ Emit(C!EnterGuard, C!EnterUpd, [t |-> now, seq |-> s, name |-> "n"])
     /\ UNCHANGED <<now, apc, count, wakeAt, workers, starting, idle, ticked, tsTaken, dead, nextSeq, ticksClosed,
                    resultsClosed, stopClosed, spc, sret, fpc, cpc, cwake, delivered>>
+
+Enter(s) == \E lat \in Lats : EnterP(s, lat)
 
 \* the transport returns; the deferred function computes the latency
 Exit(s) ==
